@@ -249,14 +249,18 @@ def dump_codes():
     p = subprocess.run([BIN, "dump"], capture_output=True, timeout=300)
     if p.returncode != 0:
         die("`c20 dump` failed: " + p.stderr.decode(errors="replace")[-800:])
-    beh = []
+    beh, scen = [], []
     for l in p.stdout.decode().split("\n"):
         w = l.split()
         if len(w) == 3 and w[0] == "kind":
             beh.append((w[1], int(w[2])))
+        elif len(w) == 3 and w[0] == "scenario":
+            scen.append((w[1], w[2]))
     if not beh:
         die("`c20 dump` printed no `kind <Variant> <code>` lines")
-    return beh
+    if not scen:
+        die("`c20 dump` printed no `scenario <fn> <class>` lines")
+    return beh, scen
 
 
 # ----------------------------------------------------------------------------- emit
@@ -273,7 +277,7 @@ def main():
     kinds, codes, arms = parse_errors()
     hcodes, hfns = parse_header()
     rows = parse_exports()
-    beh = dump_codes()
+    beh, scen = dump_codes()
     cval = dict(codes)
     armd = {}
     for k, c in arms:
@@ -338,6 +342,11 @@ def main():
     L.append(",\n".join(f"  ({lstr(n)}, {v})" for n, v in hcodes))
     L.append("]")
     L.append("")
+    L.append("/-- arms keyed by the normalised code name -/")
+    L.append("def fromErrorArmsNorm : List (ErrKind × String) := [")
+    L.append(",\n".join(f"  (.{k}, {lstr(norm(c))})" for k, c in arms))
+    L.append("]")
+    L.append("")
     L.append("/-- both enums keyed by the case/underscore-insensitive name (`MismatchKSizes` and")
     L.append("    `MISMATCH_K_SIZES` both give `mismatchksizes`), computed by the translator -/")
     L.append("def rustCodesNorm : List (String × Nat) := [")
@@ -368,6 +377,28 @@ def main():
     L.append("def headerFns : List String := [")
     L.append(",\n".join("  " + lstr(f) for f in hfns))
     L.append("]")
+    L.append("")
+    sf = []
+    for f, _ in scen:
+        if f not in sf:
+            sf.append(f)
+    L.append("/-- the same names sorted (the export table is sorted by name) -/")
+    L.append("def headerFnsSorted : List String := [")
+    L.append(",\n".join("  " + lstr(f) for f in sorted(hfns)))
+    L.append("]")
+    L.append("def scenarioFnsSorted : List String := [")
+    L.append(",\n".join("  " + lstr(f) for f in sorted(sf)))
+    L.append("]")
+    L.append("")
+    L.append("/-- functions for which harness/src/bin/c20.rs has at least one child-process scenario -/")
+    L.append("def scenarioFns : List String := [")
+    L.append(",\n".join("  " + lstr(f) for f in sf))
+    L.append("]")
+    L.append("")
+    L.append("/-- `from_error` as a function (source route); 0 would mean \"no arm\" — excluded by `codes_total` -/")
+    L.append("def fromError (k : ErrKind) : Nat := (fromErrorSrc.lookup k).getD 0")
+    L.append("")
+    L.append("def exportGuarded (name : String) : Option Bool := (exports.find? (·.name == name)).map (·.guarded)")
     L.append("")
     L.append("end Sourmash.Generated.C20")
     text = "\n".join(L) + "\n"
